@@ -113,6 +113,9 @@ func genHistory(r *rand.Rand, profile string) History {
 		w = profiles["mixed"]
 	}
 	g := genGenesis(r, profile)
+	if r.Intn(5) == 0 {
+		g.Denom = "upoa" // a chain whose bond denom is not the SDK default
+	}
 	s := &simState{power: map[int]int64{}, pending: map[int]bool{}, removed: map[int]bool{}, jailed: map[int]bool{}, history: map[int][]int64{}, next: len(g.Tokens), justUnjailed: -1}
 	for i, t := range g.Tokens {
 		s.power[i] = t / 1_000_000
